@@ -642,7 +642,7 @@ func (c *Ctx) closureReportsError(fn *ssa.Function, start *ssa.BasicBlock, e ssa
 	for _, b := range fn.Blocks {
 		for _, i := range b.Instrs {
 			if st, ok := i.(*ssa.Store); ok {
-				if _, isFree := st.Addr.(*ssa.FreeVar); isFree && isErrorType(st.Val.Type()) {
+				if fv, isFree := st.Addr.(*ssa.FreeVar); isFree && isErrorType(st.Val.Type()) && readBackAfterDefers(fv) {
 					if derivesFromErr(st.Val, e, 0) || definitelyNonNilErr(st.Val, 0) {
 						storeBlocks[b.Index] = true
 					}
@@ -811,4 +811,37 @@ func (c *Ctx) RuleC5(in func(*ssa.Function) bool) {
 				"result used at "+where+" without a dominating nil/length test: a reader failure would be processed as an empty value")
 		})
 	}
+}
+
+// readBackAfterDefers: the captured variable is a result cell of the enclosing
+// function — some return reads it after the deferred calls ran. A store into
+// any other captured local from a deferred function comes too late: the
+// return value was fixed before the defers ran.
+func readBackAfterDefers(fv *ssa.FreeVar) bool {
+	cell, ok := ir.FreeVarBinding(fv).(*ssa.Alloc)
+	if !ok || cell == nil {
+		return true // not a local of the parent (nested capture): not judged here
+	}
+	parent := cell.Parent()
+	for _, b := range parent.Blocks {
+		ret, isRet := b.Instrs[len(b.Instrs)-1].(*ssa.Return)
+		if !isRet {
+			continue
+		}
+		after := false
+		for _, i := range b.Instrs {
+			if _, isRD := i.(*ssa.RunDefers); isRD {
+				after = true
+				continue
+			}
+			if ld, isLd := i.(*ssa.UnOp); isLd && after && ld.X == ssa.Value(cell) {
+				for _, res := range ret.Results {
+					if res == ssa.Value(ld) {
+						return true
+					}
+				}
+			}
+		}
+	}
+	return false
 }
